@@ -26,6 +26,7 @@ func reasmSpec(id string, which reasm.Which, snapshot bool, rule string, assumpt
 			cnt("histories_with_overflow_eviction"), cnt("histories_with_duplicate_sequence"), cnt("histories_with_late_arrival"),
 			cnt("histories_straddling_rollover"), cnt("histories_with_orphan_eoe"), cnt("histories_with_gap"),
 			cnt("histories_with_head_of_line_blocking"), cnt("histories_delivering_seq0"), cnt("histories_with_multirecord_event")
+		cFar := cnt("histories_with_two_far_apart_sequence_clusters")
 		deliveries, lostReports, snaps := c.Counter("deliveries_observed"), c.Counter("eventslost_callbacks_observed"), c.Counter("snapshots_cross_checked")
 		nt := c.DistinctSet("nontrivial")
 		one := func(h *reasm.History) {
@@ -61,6 +62,9 @@ func reasmSpec(id string, which reasm.Which, snapshot bool, rule string, assumpt
 			}
 			if cl.MultiRecord {
 				cMulti()
+			}
+			if h.Far {
+				cFar()
 			}
 			if cl.Nontrivial() {
 				nt.AddString(h.String())
